@@ -211,9 +211,8 @@ def param_roots(q):
 
 
 def run(ctx):
-    out = r20_1(ctx) + r20_2(ctx) + r20_3(ctx)
-    out += r20_4(ctx)
-    return out
+    from runner import collect
+    return collect(ctx, r20_1, r20_2, r20_3, r20_4)
 
 
 def run_fixture(fctx):
